@@ -357,6 +357,28 @@ class Body:
         self._ipdom = None
         self.dbg = j.get("dbg", [])
 
+    def promoted_body(self, idx):
+        ps = self.j.get("promoted", [])
+        if idx >= len(ps):
+            return None
+        cache = self.__dict__.setdefault("_prom", {})
+        if idx not in cache:
+            pj = dict(ps[idx])
+            pj.update({"path": self.raw_path + "::{promoted#%d}" % idx, "kind": "Promoted", "span": self.span, "argc": 0})
+            cache[idx] = Body(self.prog, self.crate, pj)
+        return cache[idx]
+
+    def promoted_value(self, idx):
+        """Abstract value of promoted constant #idx (sl.Eval), or None."""
+        pb = self.promoted_body(idx)
+        if pb is None:
+            return None
+        from . import sl
+        try:
+            return sl.Eval(self.prog, pb).run()
+        except sl.Unextractable:
+            return None
+
     # --- names -----------------------------------------------------------------------
     def local_name(self, l):
         for d in self.dbg:
@@ -638,6 +660,8 @@ class Program:
             if call.resolved == call.callee and self.bodies[call.resolved].trait_default:
                 out.update(self.impl_methods().get(call.callee, []))
             return out
+        if call.resolved and call.res_kind != "virtual" and call.resolved != call.callee:
+            return out  # resolved to a non-local item (std / dependency)
         if call.callee:
             if call.callee in self.bodies:
                 out.add(call.callee)
